@@ -106,4 +106,45 @@ chk("C19", "gbv/dispatch+ownership+wirefmt",
     "encoding/binary transfers the size of the static type.",
     "DESIGN.md 5/C19")
 
+chk("C09", "gbv/cellcodec",
+    "sparse conditional constant propagation (H-sccp) of cellLength and CellBytes over the metadata domain + canonical-term comparison (H-term); loop-skeleton extraction from phi edges",
+    "Decides that the length rule and the value decoder agree on the size of a cell for every column type and every valid metadata value (quick: all 1580 DECIMAL pairs, all fsp, BIT, ENUM/SET, "
+    "blob widths, boundary string lengths, every CHAR real-type byte; thorough: all 65536 metadata values of the three string types - exhaustive), that both handle the same type codes, that the four "
+    "row loops move (ordinal, NULL index, offset) by (1,0,0)/(1,1,0)/(1,1,L) on absent/NULL/value paths with L taken for Types[c], Metadata[c], that image families are not mixed and NULL bitmaps are "
+    "sized by the present-column count, and that bitmap constructors/accessors agree. It does not decide that row counts and bytes equal what a master encoded.",
+    "H-sccp models Go's modular integer arithmetic; dig2bytes is proven constant; metadata domains as MySQL produces them.",
+    "DESIGN.md 5/C09")
+
+chk("C10", "gbv/cellcodec",
+    "H-sccp specialisation per type + canonical value terms (H-term) compared with the documented decoding; operand provenance at the decoder call sites",
+    "Decides API-usage and dependence facts without which the text cannot be exact: type, metadata, signedness, name and type are taken at one column ordinal; for each integer width the returns keyed "
+    "by the unsigned flag are base-10 text of the little-endian value / of its two's-complement reinterpretation at exactly that width (INT24 sign bit and extension); FLOAT/DOUBLE use AppendFloat('f', -1, 32|64) "
+    "on the little-endian IEEE bits; YEAR, ENUM (also as CHAR real type), BIT and SET shapes. The numeric results themselves (strconv, math) are trusted, not decided.",
+    "canonical terms are compared syntactically after normalisation; an algebraically different but equivalent decoder needs a table update.",
+    "DESIGN.md 5/C10")
+
+chk("C11", "gbv/cellcodec",
+    "H-sccp over all 1580 (precision, scale) pairs + definite-write must-analysis with guarded facts + fmt-verb and loop-bound checks on the specialised CFG",
+    "Decides three necessary conditions for every valid (p,s): the text is definitely written on every path to a success return (zero never decodes to an empty value); no verb pads with spaces; after the "
+    "'.' exactly the verbs %09d (s/9 times) and %0Nd (N = s mod 9) are reachable, fed by big-endian reads of the tabulated widths, and integer groups use only %09d/%d/strconv; dig2bytes is constant and equals "
+    "MySQL's table. The digit arithmetic and negative inversion are not decided.",
+    "fmt verb semantics; strconv.AppendUint yields at least one digit.",
+    "DESIGN.md 5/C11")
+
+chk("C12", "gbv/cellcodec",
+    "H-sccp per (type, fsp) + reachable-format and argument-term checks; canonical value terms of the fixed layouts compared with the documented packings",
+    "Decides: per fsp the only reachable fraction format prints exactly fsp digits of the big-endian fraction bytes (divided by 10 for odd fsp); TIMESTAMP text comes from time.Unix in the local zone with "
+    "the fields in order and the documented zero literal; DATE/NEWDATE/DATETIME/DATETIME2/TIMESTAMP/TIMESTAMP2 extract their fields from the documented bit and decimal packings. TIME/TIME2 sign and hour "
+    "arithmetic and out-of-range rendering are not decided (a known mis-rendering of negative pre-5.6.4 TIME is outside static reach, see DESIGN).",
+    "canonical terms are compared syntactically after normalisation.",
+    "DESIGN.md 5/C12")
+
+chk("C13", "gbv/cellcodec",
+    "H-sccp over the string-type metadata domains + canonical slice terms; path-class effects in the streamer's column loops",
+    "Decides: for VARCHAR/VAR_STRING/CHAR/blobs/GEOMETRY the value is the direct sub-slice after a prefix whose width follows the declared maximum (thorough: all 65536 metadata values, exhaustive); in the "
+    "streamer absent/NULL/value are delivered as {IsEmpty}, {nil data}, {decoder result}, each appended exactly once, and IsEmpty is set nowhere else. Byte equality with the master follows given a "
+    "well-formed image and is not decided on its own.",
+    "a sub-slice of a non-nil image is non-nil even when empty.",
+    "DESIGN.md 5/C13")
+
 ENGINES[0]["serves_properties"] = sorted(CHECKS.keys())
